@@ -471,6 +471,9 @@ type SvcCase struct {
 	Seeded          []int       `json:"seeded"`  // put straight into the blockstore before the history (may be rejected ones)
 	Missing         []int       `json:"missing"` // blocks the exchange does not have
 	Ops             []Op        `json:"ops"`
+	// Eager: on a batched fetch the exchange also delivers every other pool block it has
+	// (an over-eager or hostile peer), including blocks whose CID the validator rejects
+	Eager bool `json:"eager,omitempty"`
 }
 
 // hash functions with a registered implementation, and digest lengths around the limits.
@@ -576,6 +579,7 @@ func genSvc(t *rapid.T) SvcCase {
 	c.Allow = genAllow(t)
 	c.WriteThrough = rapid.Bool().Draw(t, "wt")
 	c.SessionExchange = rapid.Bool().Draw(t, "sesex")
+	c.Eager = rapid.IntRange(0, 2).Draw(t, "eager") == 0
 	n := rapid.IntRange(3, 12).Draw(t, "nblocks")
 	for i := 0; i < n; i++ {
 		c.Blocks = append(c.Blocks, genBlock(t))
@@ -645,6 +649,7 @@ type recExchange struct {
 	have     map[string][]byte // multihash -> data
 	asked    []cid.Cid
 	sessions int
+	extras   []blocks.Block // delivered unasked on every batched fetch (Eager)
 }
 
 type recFetcher struct{ ex *recExchange }
@@ -661,9 +666,16 @@ func (e *recExchange) fetchOne(c cid.Cid) (blocks.Block, error) {
 }
 
 func (e *recExchange) fetchMany(ks []cid.Cid) (<-chan blocks.Block, error) {
-	out := make(chan blocks.Block, len(ks))
+	out := make(chan blocks.Block, len(ks)+len(e.extras))
+	req := map[string]bool{}
 	for _, k := range ks {
+		req[k.KeyString()] = true
 		if b, err := e.fetchOne(k); err == nil {
+			out <- b
+		}
+	}
+	for _, b := range e.extras {
+		if !req[b.Cid().KeyString()] {
 			out <- b
 		}
 	}
@@ -760,6 +772,9 @@ func runSvc(c SvcCase) kit.Result {
 	for i, b := range blks {
 		if !missing[i] {
 			ex.have[string(b.Cid().Hash())] = b.RawData()
+			if c.Eager {
+				ex.extras = append(ex.extras, b)
+			}
 		}
 	}
 	var exi exchange.Interface = plainEx{recFetcher{ex}}
@@ -770,6 +785,9 @@ func runSvc(c SvcCase) kit.Result {
 
 	res := kit.Result{}
 	cls := map[string]bool{"allow:" + c.Allow.Kind: true}
+	if c.Eager {
+		cls["exchange-eager"] = true
+	}
 	if nrej == 0 {
 		cls["pool-all-accepted"] = true
 	} else if nrej == n {
